@@ -264,6 +264,12 @@ def raw_invariant(chk: Check, repo: Repo, cname: str) -> None:
             guards = [g.id for g in cfg.nodes if g.id in after and ranged(mf.get(g.id, frozenset()), "self.raw")]
             if guards and cfg.all_paths_hit(n.id, guards, [cfg.exit], edge_ok=cfg.normal_only):
                 why = "followed by the range guard on every path to the normal exit"
+        # ... and the stored object is a plain int: `isinstance(x, int)` also admits bool and IntEnum members, whose str()
+        # is not a number - in the free notation the address then renders as text its own parser refuses
+        if v is not None and isinstance(v, ast.Name) and any(val and atom == f"isinstance({v.id}, int)" for atom, val in mf[n.id]):
+            chk.ob("raw-is-a-plain-int", ini.site(a), False, f"{cname}.__init__: `{ast.unparse(a)}` stores the argument object itself after `isinstance({v.id}, int)` - a bool (True) or IntEnum member keeps its own str()", key=f"plain-int|{cname}")
+        elif v is not None and isinstance(v, ast.Call) and call_name(v) == "int" and len(v.args) == 1 and isinstance(v.args[0], ast.Name) and any(val and atom == f"isinstance({v.args[0].id}, int)" for atom, val in mf[n.id]):
+            chk.ob("raw-is-a-plain-int", ini.site(a), True, f"{cname}.__init__: `{ast.unparse(a)}` normalises an int subclass instance to a plain int", key=f"plain-int|{cname}")
         chk.ob("constructor-establishes-16-bit-range", ini.site(a), why is not None, f"{cname}.__init__: `{ast.unparse(a)}` — {why or 'no range check between this assignment and the normal exit: a value outside 0..65535 is stored (renders to text that re-parses to a different address; to_knx cannot serialise it)'}", key=f"raw-range|{cname}|{canon(a)}")
 
 
